@@ -58,10 +58,12 @@ CLAIM = {
 PROPS_FILE = "AdaptixProofs/Props/C12.lean"
 LEAN_TARGETS = ["AdaptixProofs.Props.C12", "drv_c12"]
 RULE = ("a case is one schedule of 2-3 real threads racing on the first get_loader/get_dumper + call of one "
-        "retort; quick: all schedules with <= 1 preemption for every scenario and <= 2 preemptions within a time "
-        "slice (randomised order), plus random schedules at yield-point and at statement granularity; a case is "
-        "non-trivial when at least two threads were inside the creation code at the same time (the trace "
-        "interleaves their actions before the first loader-cache store)")
+        "retort over 11 type-graph scenarios; quick: ALL schedules with <= 1 preemption for the 9 two-thread "
+        "scenarios (sampled for the 2 expensive ones), <= 2 preemptions exhaustive for the plain model and sampled "
+        "in randomised order elsewhere, plus random, malformed and facade-form schedules at yield-point "
+        "granularity and random schedules at statement granularity (oracle only); thorough: <= 2 exhaustive for 7 "
+        "scenarios, <= 3 / <= 4 sampled. A case is non-trivial when at least two threads were inside the creation "
+        "code at the same time (their actions interleave before the first loader-cache store)")
 ASSUMPTIONS = [
     "GIL atomicity of a single dict lookup, dict store and attribute store (CPython 3.12 with the GIL; "
     "free-threaded builds are out of scope)",
